@@ -94,8 +94,47 @@ def c01_shapes(tier):
         for k, dst in (('--in', 'n'), ('--in-file', 'm'), ('--in-dir=', 'l'), ('--in-d', 'l'), ('--outp', 'u')):
             words = [k + S(0)] if k.endswith('=') else [k, S(0)]
             shapes.append(('hx_pa_order', [perm, 0], lab('c01/order%d' % perm, words), {'pa_tmpl': tmpl('ok', ['%s=#0' % dst], ['d2'], words)}))
+    shapes += c01_float_shapes(tier)
     return shapes
 
+
+def c01_float_shapes(tier):
+    """floating point destinations (cfg 15): every spelling of '-d <D.D>' / '-x <-D.D>' with symbolic digits; the conversion of the
+    text itself is the engine's model of std::istream >> double (= host strtod), the handler code around it is the real one"""
+    shapes = []
+    unused = lambda used: ['%s=_' % k for k in ('dbl', 'flt', 'ratio', 'quota', 'n') if k not in used]
+    V = S(0) + '.' + S(1)
+    for key, lg, dst in (('d', 'double', 'dbl'), ('x', 'float', 'flt')):
+        sp = [['-' + key, V], ['-' + key + V], ['--' + lg, V], ['--' + lg + '=' + V], ['--' + lg[:3] + '=' + V], ['--' + lg[:4], V]]
+        for words in sp:
+            shapes.append(('hx_pa', [15, 0], lab('c01/float', words), {'pa_tmpl': tmpl('ok', ['%s=#0.#1' % dst] + unused([dst]), ['d1', 'd1'], words)}))
+        # negative values: glued / '=' spellings; with a flag and an integer around, both orders
+        for words in (['-' + key + '-' + V], ['--' + lg + '=-' + V]):
+            shapes.append(('hx_pa', [15, 0], lab('c01/float', words), {'pa_tmpl': tmpl('ok', ['%s=-#0.#1' % dst] + unused([dst]), ['d1', 'd1'], words)}))
+        for words in (['-f', '-' + key, V, '-n', S(2)], ['-n', S(2), '--' + lg + '=' + V, '-f'], ['-fn', S(2), '-' + key + V], ['-f' + key + V, '--number=' + S(2)]):
+            shapes.append(('hx_pa', [15, 0], lab('c01/float', words), {'pa_tmpl': tmpl('ok', ['%s=#0.#1' % dst, 'f=1', 'n=#2'] + unused([dst, 'n']), ['d1', 'd1', 'd2'], words)}))
+    # other legal notations of a floating point value
+    for text, val in (('1.5e3', '1500.0'), ('.125', '0.125'), ('7.', '7.0'), ('+2.5', '2.5'), ('-0.0625', '-0.0625'), ('25E-2', '0.25'), ('1e0', '1.0'), ('007.50', '7.5'), ('123456.789', '123456.789')):
+        for words, dst in ((['--double=' + text], 'dbl'), (['-x' + text], 'flt')):
+            shapes.append(('hx_pa', [15, 0], lab('c01/float notation', words), {'pa_tmpl': tmpl('ok', ['%s=%s' % (dst, val)] + unused([dst]), [], words)}))
+    # both destinations in one line, three-digit fractions
+    shapes.append(('hx_pa', [15, 0], 'c01/float/-d @0.@1 -x @2.@3', {'pa_tmpl': tmpl('ok', ['dbl=#0.#1', 'flt=#2.#3', 'n=_'], ['d1', 'd1', 'd1', 'd1'], ['-d', S(0) + '.' + S(1), '-x', S(2) + '.' + S(3)])}))
+    if tier != 'quick':
+        shapes.append(('hx_pa', [15, 0], 'c01/float/-d @0.@1 (3 fraction digits)', {'pa_tmpl': tmpl('ok', ['dbl=#0.#1'], ['d1', 'd3'], ['-d', S(0) + '.' + S(1)])}))
+        shapes.append(('hx_pa', [15, 0], 'c01/float/-x @0.@1 (3 fraction digits)', {'pa_tmpl': tmpl('ok', ['flt=#0.#1'], ['d2', 'd2'], ['--float', S(0) + '.' + S(1)])}))
+    return shapes
+
+
+def float_rules():
+    """checked floating point destinations of cfg 15: ratio in [0.5, 2.5), quota in [1.5, 7.5) (lower() is inclusive, upper() exclusive, as documented)"""
+    ok = [(['-r', '0.' + S(0) + S(1)], ['r1:5:9', 'd1'], ['ratio=0.#0#1']), (['--ratio=' + S(0) + '.' + S(1)], ['r1:1:1', 'd1'], ['ratio=#0.#1']), (['-r2.' + S(0)], ['r1:0:4'], ['ratio=2.#0']),
+          (['-r', '0.5'], [], ['ratio=0.5']), (['-r', '2.4999'], [], ['ratio=2.4999']), (['-q', '1.5'], [], ['quota=1.5']), (['-q', '7.4999'], [], ['quota=7.4999']),
+          (['-q', S(0) + '.' + S(1)], ['r1:2:6', 'd1'], ['quota=#0.#1']), (['--quota=1.' + S(0), '-f'], ['r1:5:9'], ['quota=1.#0', 'f=1']), (['-q7.' + S(0)], ['r1:0:4'], ['quota=7.#0']), (['-d', '--', '1.5'], [], ['dbl=1.5'])]
+    bad = [(['-r', '0.' + S(0) + S(1)], ['r1:0:4', 'd1'], []), (['-r', S(0) + '.' + S(1)], ['r1:3:9', 'd1'], []), (['-r2.' + S(0)], ['r1:5:9'], []), (['-r', '2.5'], [], []), (['-r', '0.4999'], [], []),
+           (['-q', S(0) + '.' + S(1)], ['r1:0:0', 'd1'], []), (['-q1.' + S(0)], ['r1:0:4'], []), (['-q', '7.' + S(0)], ['r1:5:9'], []), (['-q', S(0) + '.' + S(1)], ['r1:8:9', 'd1'], []), (['-q', '7.5'], [], []),
+           (['-d', '1.5' + S(0)], ['a1'], []), (['-d', S(0)], ['a2'], []), (['--double='], [], []), (['-d'], [], []), (['-x', '1,5'], [], []), (['-d', '1e'], [], []), (['-d', '1.5', '-d', '2.5'], [], []),
+           (['-x', '1e99'], [], []), (['-d', '1.2.3'], [], []), (['-d', '--'], [], [])]
+    return ok, bad
 
 
 def lab(prefix, words):
@@ -197,6 +236,8 @@ def c02_shapes(tier):
     for words, slots in ((['-t', S(0)], ['d2']), (['-t', S(0) + ',' + S(1)], ['d1', 'd2']), (['--tuple=' + S(0) + ',' + S(1), '-f'], ['d2', 'd2']), (['-t', S(0) + ',' + S(1) + ',' + S(2) + ',' + S(3)], ['d1', 'd1', 'd1', 'd1']),
                          (['-t', S(0) + ',' + S(1) + ',' + S(2), '-t', S(3)], ['d1', 'd1', 'd1', 'd1'])):
         shapes.append(('hx_pa', [11, 0], lab('c02/cfg11', words), {'pa_tmpl': tmpl('throw', [], slots, words)}))
+    for words, slots, items in float_rules()[1]:
+        shapes.append(('hx_pa', [15, 0], lab('c02/cfg15', words), {'pa_tmpl': tmpl('throw', [], slots, words)}))
     # abbreviations disabled
     for words, slots in ((['--numbe', S(0)], ['d2']), (['--fla'], []), (['--nam=' + S(0)], ['s2'])):
         shapes.append(('hx_pa', [0, 1], lab('c02/noabbr', words), {'pa_tmpl': tmpl('throw', [], slots, words)}))
@@ -219,6 +260,8 @@ def c03_shapes(tier):
         shapes.append(('hx_pa', [10, 0], lab('c03/cfg10', words), {'pa_tmpl': tmpl('ok', items, slots, words)}))
     shapes.append(('hx_pa', [11, 0], 'c03/cfg11 tuple', {'pa_tmpl': tmpl('ok', ['tp=#0,#1,#2', 'f=1'], ['d1', 'd2', 'd3'], ['-f', '-t', S(0) + ',' + S(1) + ',' + S(2)])}))
     shapes.append(('hx_pa', [11, 0], 'c03/cfg11 no tuple', {'pa_tmpl': tmpl('ok', ['f=1'], [], ['-f'])}))
+    for words, slots, items in float_rules()[0]:
+        shapes.append(('hx_pa', [15, 0], lab('c03/cfg15', words), {'pa_tmpl': tmpl('ok', items, slots, words)}))
     # full keys with abbreviations disabled
     for words, slots, items in ((['--number', S(0), '--flag'], ['d2'], ['n=#0', 'f=1']), (['--name=' + S(0)], ['s3'], ['s=$0'])):
         shapes.append(('hx_pa', [0, 1], lab('c03/noabbr', words), {'pa_tmpl': tmpl('ok', items, slots, words)}))
@@ -249,6 +292,9 @@ def c04_shapes(tier):
         shapes.append(('hx_pa', [13, opt << 8], lab('c04/format%d' % opt, words), {'pa_tmpl': tmpl('safe', [], ['b2', 'b1'], words)}))
     for n in ((1, 2, 3) if tier == 'quick' else (1, 2, 3, 4, 5)):
         shapes.append(('hx_split_any', [n, 0], 'c04/split_any%d' % n))
+    # floating point destinations: an arbitrary byte at every position of the value text
+    for words in (['-d', S(0)], ['-d', '1' + S(0)], ['--double=1e' + S(0)], ['-x', S(0) + '5'], ['-x.' + S(0)], ['-r', '1.5' + S(0)], ['-r', S(0)]):
+        shapes.append(('hx_pa', [15, 0], lab('c04/float', words), {'pa_tmpl': tmpl('safe', [], ['b1'], words)}))
     # sources: environment variable with arbitrary content; program-argument file that cannot be opened
     for l in (1, 2, 3):
         shapes.append(('hx_pa_env', [0, 0], 'c04/env%d' % l, {'pa_tmpl': tmpl('safe', [], ['b%d' % l], [S(0)])}))
